@@ -31,9 +31,14 @@ type SpySigner struct {
 	// signing context, so a slow key (HSM, KMS) widens whatever window exists there.
 	Jitter  bool
 	publics atomic.Uint64
+	// OnPublic, when armed, runs once inside the next Public() call (on the calling goroutine).
+	OnPublic atomic.Pointer[func()]
 }
 
 func (s *SpySigner) Public() crypto.PublicKey {
+	if f := s.OnPublic.Swap(nil); f != nil {
+		(*f)()
+	}
 	if s.Jitter {
 		switch n := s.publics.Add(1); n % 3 {
 		case 0:
@@ -331,6 +336,31 @@ func verifyRaw(k *sim.Key, h crypto.Hash, digest, sig []byte) bool {
 func ConfigString(r *rand.Rand, def string, attr bool) (string, string) {
 	if r.IntN(3) == 0 {
 		return def, "default"
+	}
+	if def != "" && r.IntN(6) == 0 {
+		// a value that normalising code would fold onto the usual one: other letter case, padding, a trailing slash
+		switch r.IntN(7) {
+		case 0:
+			return strings.ToUpper(def), "near-default"
+		case 1:
+			return strings.ToUpper(def[:1]) + def[1:], "near-default"
+		case 2:
+			b := []byte(def)
+			for i := range b {
+				if r.IntN(2) == 0 {
+					b[i] = strings.ToUpper(string(b[i]))[0]
+				}
+			}
+			return string(b), "near-default"
+		case 3:
+			return " " + def, "near-default"
+		case 4:
+			return def + " ", "near-default"
+		case 5:
+			return def + "/", "near-default"
+		default:
+			return strings.TrimSuffix(def, "/") + "#", "near-default"
+		}
 	}
 	for {
 		v, c := RandValue(r)
